@@ -1,0 +1,49 @@
+//go:build verif
+
+// Contracts (machine-checked specifications) for package nodeenrollment, read
+// by the verifier under /verif. Comments only; compiled only with -tags verif.
+
+package nodeenrollment
+
+// ---------------------------------------------------------------- encryption.go (C11, C14)
+//
+// curOk/curId/curKey/prevOk/prevId/prevKey(ks): what the key source's
+// X25519EncryptionKey / PreviousX25519EncryptionKey methods yield.
+// blobCt(b): the ciphertext inside the marshaled BlobInfo b.
+// aeadOk(k, aad, ct) / aeadPt(k, aad, ct): AEAD opening of ct under key k with
+// additional data aad (the key id, as bytes).
+// decodedFrom(m, c): message m holds exactly what c encodes; encodes(c, m): c encodes m.
+
+//@ pred opens(key, id, ct, result) := wfMsg("github.com/hashicorp/go-kms-wrapping/v2.BlobInfo", ct) && len(blobCt(ct)) >= 12
+//@   | && aeadOk(key, id, blobCt(ct)) && wfMsg(result, aeadPt(key, id, blobCt(ct)))
+
+//@ func nodeenrollment.decryptWithKey
+//@   nopanic[C11,C14]
+//@   ensures[C11 auth] err == nil ==> opens(sharedKey, keyId, ct, result) && decodedFrom(result, aeadPt(sharedKey, keyId, blobCt(ct)))
+//@   ensures[C11 complete] len(sharedKey) == 32 && opens(sharedKey, keyId, ct, result) ==> err == nil
+//@   modifies fields(result)
+
+//@ func nodeenrollment.DecryptMessage
+//@   nopanic[C11,C14]
+//@   ensures[C11 auth] err == nil ==>
+//@   |   (curOk(keySource) && opens(curKey(keySource), curId(keySource), ct, result)
+//@   |      && decodedFrom(result, aeadPt(curKey(keySource), curId(keySource), blobCt(ct))))
+//@   |   || (curOk(keySource) && prevOk(keySource) && opens(prevKey(keySource), prevId(keySource), ct, result)
+//@   |      && decodedFrom(result, aeadPt(prevKey(keySource), prevId(keySource), blobCt(ct))))
+//@   ensures[C11 current] len(ct) != 0 && !IsNil(keySource) && !IsNil(result) && curOk(keySource)
+//@   |   && opens(curKey(keySource), curId(keySource), ct, result) ==> err == nil
+//@   ensures[C11 previous] len(ct) != 0 && !IsNil(keySource) && !IsNil(result) && curOk(keySource) && prevOk(keySource)
+//@   |   && opens(prevKey(keySource), prevId(keySource), ct, result) ==> err == nil
+//@   modifies fields(result)
+
+//@ func nodeenrollment.EncryptMessage
+//@   nopanic[C11,C14]
+//@   ensures[C11 failclosed] err != nil ==> ret == nil
+//@   ensures[C11 enc] err == nil ==> curOk(keySource) && wfMsg("github.com/hashicorp/go-kms-wrapping/v2.BlobInfo", ret)
+//@   |   && exists mc String, r String :: encodes(mc, msg) && blobCt(ret) == aeadEnc(curKey(keySource), curId(keySource), mc, r)
+
+//@ func nodeenrollment.lemmaEncryptDecrypt
+//@   requires !IsNil(r) && !IsNil(out) && sameDynType(msg, out) && curOk(r)
+//@   requires (curKey(r) == curKey(s) && curId(r) == curId(s)) || (prevOk(r) && prevKey(r) == curKey(s) && prevId(r) == curId(s))
+//@   ensures[C11 roundtrip] encErr == nil ==> decErr == nil && exists mc String :: encodes(mc, msg) && decodedFrom(out, mc)
+//@   modifies fields(out)
